@@ -81,7 +81,7 @@ class Ctx(object):
         elif detail is not None and len(self.samples) < 40:
             self.samples.append({'rule': rid, 'instance': instance, 'detail': detail})
 
-    def violated(self, rid, fi_or_qualname, construct, message, node=None, witness=None):
+    def violated(self, rid, fi_or_qualname, construct, message, node=None, witness=None, firm=False):
         q = fi_or_qualname if isinstance(fi_or_qualname, str) else fi_or_qualname.qualname
         where = None
         if not isinstance(fi_or_qualname, str):
@@ -257,9 +257,11 @@ class Trial(object):
     """A rule run "on trial": what it records is held back.  `commit()` replays it into the real context; `discard()` drops it.  Used where a structural reading of a
     function (which knows one way of writing it) and an interpretation of the same function on abstract inputs decide the same clause: the structural reading counts
     only when it ends without a complaint - a VIOLATION or an UNDECIDED of the structural reading means "not the shape I know", and the interpretation decides."""
-    def __init__(self, ctx):
+    def __init__(self, ctx, about=None):
         object.__setattr__(self, '_ctx', ctx)
         object.__setattr__(self, '_log', [])
+        object.__setattr__(self, '_keep', [])
+        object.__setattr__(self, '_about', set(about) if about is not None else None)
         object.__setattr__(self, 'complaints', [])
 
     def __getattr__(self, k):
@@ -275,8 +277,17 @@ class Trial(object):
         self._log.append(('holds', a, k))
 
     def violated(self, rid, fi, construct, message, *a, **k):
-        self.complaints.append('%s: %s' % (rid, construct if isinstance(construct, str) else message[:60]))
-        self._log.append(('violated', (rid, fi, construct, message) + a, k))
+        # a complaint counts against the structural reading only when it is about the function on trial (`about`: qualnames; None = any) and is not `firm`
+        # (firm = decided by evaluation over a bounded domain, independent of how the function is written: kept whatever happens to the trial)
+        firm = k.pop('firm', False)
+        q = fi if isinstance(fi, str) else getattr(fi, 'qualname', None)
+        about = object.__getattribute__(self, '_about')
+        entry = ('violated', (rid, fi, construct, message) + a, k)
+        if firm or (about is not None and q not in about):
+            self._keep.append(entry)
+        else:
+            self.complaints.append('%s: %s' % (rid, construct if isinstance(construct, str) else message[:60]))
+            self._log.append(entry)
 
     def undecide(self, rid, message):
         self.complaints.append('%s: %s' % (rid, message[:60]))
@@ -288,17 +299,20 @@ class Trial(object):
             raise AnalysisError('%s-%s: %s' % (self._ctx.prop, rid, message))
 
     def commit(self):
-        for kind, a, k in self._log:
+        for kind, a, k in self._log + self._keep:
             getattr(self._ctx, kind)(*a, **k)
 
     def discard(self):
+        # what was said about other functions, and what is firm, stays
+        for kind, a, k in self._keep:
+            getattr(self._ctx, kind)(*a, **k)
         del self._log[:]
 
 
-def on_trial(ctx, structural, tables, rids, what):
+def on_trial(ctx, structural, tables, rids, what, about=None):
     """Run the structural reading `structural(ctx)` on trial; when it ends with a complaint, drop what it recorded and decide rules `rids` by the scenario tables of the
     functions `tables` (interpretation on abstract inputs) instead."""
-    trial = Trial(ctx)
+    trial = Trial(ctx, about=about if about is not None else tables)
     try:
         structural(trial)
     except AnalysisError as e:
